@@ -1,6 +1,7 @@
 package colvet
 
 import (
+	"os"
 	"fmt"
 	"go/token"
 	"go/types"
@@ -218,7 +219,7 @@ func ruleReadChunk(r *Report) {
 		for _, g := range deepFuncs(ws) {
 			for _, rc := range callsTo(g, false, "(*column.Collection).readChunk") {
 				rcc, _, _ := callCommon(rc)
-				f := asFunc(rcc.Args[2])
+				f := asFunc(norm(rcc.Args[2]))
 				if f == nil || cbParam(f, 2) == nil || cbParam(f, 3) != nil {
 					continue
 				}
@@ -665,6 +666,9 @@ func ruleWholeCommits(r *Report) {
 			v = norm(v)
 			return isCountRead(v) || dependsOn(v, isCountRead, 5)
 		})
+		if os.Getenv("COLVET_DEBUG_ARMS") != "" {
+			fmt.Fprintf(os.Stderr, "READSTATE inner=%s ok=%v nNil=%d appOK=%v bound=%v\n", fnName(inner), ok, nNil, appOK, bound)
+		}
 		h.Check(ok && nNil == 1 && appOK && bound, "(*column.Collection).readState/block", r.P.Pos(inner.Pos()), "nil only after all `columns` buffers were read", "a block's transaction can commit although not every buffer of the block was read (a truncated block is applied partially)")
 		// goes through Query
 		q := false
